@@ -20,24 +20,33 @@ def _known(env):
     return f
 
 
-def _setup(env):
-    m = BDD()
-    conv = TermBV(m, _known(env))
+def _setup(env, m=None, conv=None, rename=None, only=None):
+    """-> (manager, converter, path condition of env).  `rename` maps terms before conversion (to compare paths of
+    different functions over common variable names)."""
+    if m is None:
+        m = BDD()
+        conv = TermBV(m, _known(env))
     K = 1
+    ren = (lambda t: subst(t, rename)) if rename else (lambda t: t)
     for kind, t, v in getattr(env, 'log', ()):
         if not (isinstance(t, tuple) and t and t[0] in ('c', 's', 'o') and t[1]):
             continue        # a weaker path condition only makes the proof harder, never unsound
+        t2 = ren(t)
+        if only is not None and not (_symnames(t2) <= only):
+            continue
         try:
-            e = conv(t).eq(v)
+            e = conv(t2).eq(v)
         except Unsupported:
             continue
         K = m.AND(K, e if kind == 'eq' else m.NOT(e))
     for t, av in env.ref.items():
+        if only is not None and not (_symnames(ren(t)) <= only):
+            continue
         # interval / known-bit refinements installed directly with Env.assume (not through the log)
         if t[0] != 's' or not t[1]:
             continue
         try:
-            x = conv(t)
+            x = conv(ren(t))
         except Unsupported:
             continue
         w = len(x)
@@ -85,3 +94,31 @@ def const_diff_under(t1, t2, env, width):
     if m.AND(K, d.diff(BV.const(m, width, c))) == 0:
         return c
     return None
+
+
+setup = _setup
+
+
+def subst(t, mapping):
+    """rebuild term t with the sub-terms in `mapping` replaced"""
+    from .terms import O
+    if t in mapping:
+        return mapping[t]
+    if not isinstance(t, tuple) or not t or t[0] != 'o':
+        return t
+    args = [subst(a, mapping) if isinstance(a, tuple) else a for a in t[3:]]
+    return O(t[1], t[2], *args)
+
+
+def _symnames(t):
+    out = set()
+    stack = [t]
+    while stack:
+        x = stack.pop()
+        if not isinstance(x, tuple) or not x:
+            continue
+        if x[0] == 's':
+            out.add(x[2])
+        elif x[0] == 'o':
+            stack.extend(x[3:])
+    return out
